@@ -2,6 +2,7 @@ package main
 
 import (
 	"sync"
+	"sync/atomic"
 	"time"
 
 	kv "github.com/XiXi-2024/xixi-kv"
@@ -41,8 +42,96 @@ func profMergeCrash(en *Env) {
 	for t := 0; t < 2*en.Scale; t++ {
 		halfBatchTrace(en, h.IndexTypes[t%3], stats)
 	}
+	for t := 0; t < 3*en.Scale; t++ {
+		overlapTrace(en, h.IndexTypes[t%3], stats)
+	}
 	en.Summary["traces"] = traces
 	en.Summary["stats"] = stats
+}
+
+// overlapTrace: further Merge calls while a merge is running (each must answer "in progress" and leave the running
+// merge alone). The first merge is parked once its scan is over; two more calls are made - should one of them be
+// admitted, it is parked at its second rewrite -; the first merge then writes its marker and returns, and the
+// process "dies". The image must recover the acknowledged mapping.
+func overlapTrace(en *Env, index string, stats map[string]int) {
+	r := en.R
+	cfg := h.Cfg{Index: index, Shards: 4, IO: "std", Limit: 300, Sync: "no"}
+	nkeys := 6
+	dir := en.FreshDir()
+	defer en.Drop(dir)
+	u := h.SimpleKeys(nkeys, 6)
+	vs := h.NewValues()
+	e := h.NewEng(dir, en.Work+"/scratch", cfg, u, vs, en.T)
+	en.T.Emit(h.Ev{"ev": "reset", "n": nkeys, "seed": en.Seed, "prof": "overlap", "cfg": cfg.Ev()})
+	c := h.NewCrasher(e, en.Work+"/img")
+	c.WithMerge = true
+	c.MaxImages = 0
+	if e.Open(cfg) != "ok" {
+		c.Stop()
+		c.Flush(nil)
+		return
+	}
+	val := func(n int) int { id, _ := vs.New(n); return id }
+	for round := 0; round < 2; round++ {
+		for k := 1; k <= nkeys; k++ {
+			e.Put(k, val(40+r.Intn(50)))
+		}
+	}
+	aScanned, relA := make(chan struct{}), make(chan struct{})
+	cParked, relC := make(chan struct{}), make(chan struct{})
+	var onceA, onceC sync.Once
+	var aIsParked, lateRewrites int32
+	orig := kv.VerifPoint
+	kv.VerifPoint = func(name string, arg uint32) {
+		switch name {
+		case "merge.scanned":
+			onceA.Do(func() { atomic.StoreInt32(&aIsParked, 1); close(aScanned); <-relA })
+		case "merge.rewrite":
+			// (the first merge is past its scan: a rewrite now belongs to a merge that should not be running)
+			if atomic.LoadInt32(&aIsParked) == 1 && atomic.AddInt32(&lateRewrites, 1) == 2 {
+				onceC.Do(func() { close(cParked); <-relC })
+			}
+		}
+	}
+	aDone := make(chan struct{})
+	go func() {
+		defer close(aDone)
+		e.DB.Merge()
+	}()
+	select {
+	case <-aScanned:
+	case <-aDone:
+	}
+	stats["overlap_second_call_"+h.Guard(h.CallTimeout, func() error { return e.DB.Merge() })]++
+	e.Put(1, val(25)) // the live set changes between the calls
+	e.Delete(2)
+	cDone := make(chan string, 1)
+	go func() { cDone <- h.ErrName(e.DB.Merge()) }()
+	select {
+	case name := <-cDone:
+		stats["overlap_third_call_"+name]++
+		cDone <- name
+	case <-cParked:
+		stats["overlap_third_call_admitted"]++
+	case <-h.After(5 * time.Second):
+	}
+	close(relA)
+	<-aDone
+	c.MaxImages = 10
+	c.Snapshot("overlap.firstdone")
+	c.MaxImages = 0
+	close(relC)
+	select {
+	case <-cDone:
+	case <-h.After(h.CallTimeout):
+	}
+	kv.VerifPoint = orig
+	if !e.Dead && e.DB != nil {
+		e.Close()
+	}
+	c.Stop()
+	obs := c.ExploreMerge(false, stats)
+	c.Flush(obs)
 }
 
 func mergeCrashTrace(en *Env, cfg h.Cfg, stats map[string]int, bigKeys bool) {
